@@ -101,6 +101,13 @@ func copyBlock(v reflect.Value, block Block) error {
 		}
 
 		if vx.Type().AssignableTo(blockType) {
+			if k := f.Type.Kind(); k != reflect.Struct {
+				return fmt.Errorf(
+					"type mismatch for the mapped field: struct.%s has %s, "+
+						"block.%s is a nested block and needs a struct",
+					f.Name, f.Type, name,
+				)
+			}
 			return copyBlock(v.Field(namei), x.(Block))
 		}
 
